@@ -90,6 +90,11 @@ Keep(rules, t, seen) ==
          IF r.name = "id" THEN (IF "id" \in seen THEN <<>> ELSE <<r>>)
          ELSE IF r.name \in AttrsOf(t) /\ r.name \notin seen THEN <<r>> \o Keep(Tail(rules), t, seen \cup {r.name})
          ELSE Keep(Tail(rules), t, seen)
+RECURSIVE FirstOfEachName(_, _)
+FirstOfEachName(rules, seen) ==
+    IF rules = <<>> THEN <<>>
+    ELSE IF Head(rules).name \in seen THEN FirstOfEachName(Tail(rules), seen)
+    ELSE <<Head(rules)>> \o FirstOfEachName(Tail(rules), seen \cup {Head(rules).name})
 RECURSIVE IsSubseq(_, _)
 IsSubseq(a, b) == IF a = <<>> THEN TRUE ELSE IF b = <<>> THEN FALSE
                   ELSE IF Head(a) = Head(b) THEN IsSubseq(Tail(a), Tail(b)) ELSE IsSubseq(a, Tail(b))
@@ -98,6 +103,12 @@ SortOK(req, out) ==
        /\ \A i \in 1..Len(out.sort) : out.sort[i].name \in AttrsOf(out.restype) \cup {"id"}
        /\ \E i \in 1..Len(out.sort) : out.sort[i].name = "id"        \* so the order is total
        /\ IsSubseq(Keep(req.sort, out.restype, {}), out.sort)        \* the caller's valid rules, in order
+       \* ... and they come first: what the caller asked for decides before anything that was added
+       \* (in particular nothing the caller wrote after id is moved in front of it)
+       \* (a name that is repeated decides nothing the second time: only first occurrences count)
+       /\ LET k == Keep(req.sort, out.restype, {})
+              first == FirstOfEachName(out.sort, {})
+          IN Len(first) >= Len(k) /\ SubSeq(first, 1, Len(k)) = k
 
 Consistent(req, out) ==
     /\ out.restype \in Types
